@@ -102,3 +102,27 @@ ADDENDA = {
 for _k, (_t, _x) in ADDENDA.items():
     _a = CLAIMED[_k]
     CLAIMED[_k] = (_a[0] + _t, _a[1] + _x, _a[2], _a[3])
+
+# additions after the third and fourth wave of seeded changes (DESIGN.md 9.1)
+ADDENDA2 = {
+ "C02": " A seventh of the trees are evaluated under the language tag tr; trees are also wrapped 10-160 parentheses deep; quotient chains d / m / y whose reading as a date is impossible stay quotients.",
+ "C03": " A second sub-check runs free-form scripts: removing any ONE failing line leaves every other line's result unchanged. Names also include words spelled like a month or a zone (may, west) and one with an operator character (tax-rate).",
+ "C04": " Sessions are built with Session::new() or Session::default(); calculator histories are re-configured through the setters in between.",
+ "C05": " The order of the two separator setters is a dimension of the configuration; a second sub-check sums 2-12 phrases on one line; 'A is what % of B' also with exactly one money operand.",
+ "C06": " Histories also nudge the current rate by a few parts per million.",
+ "C07": " Separators of several characters; a sub-check registers unit families with every combination of the per-unit format options.",
+ "C08": " The setter order is a dimension; user-defined unit families whose conversion codes hold fractional constants are registered before or after the separator setters and converted under all four conventions.",
+ "C09": " The sign may be glued to the count for short spans; an operand is also held in a name bound on an earlier line (the line must give the literal line's value); 29 February of century years.",
+ "C10": " The first part may be held in a variable.",
+ "C12": " Amounts may be glued to the unit; a second sub-check converts a sum ('a U1 +- b U2 to U3', b also held in a name).",
+ "C13": " The number-format settings are a dimension.",
+ "C14": " A date held in a variable 'as unix'; date-times whose time carries an explicit zone denote the same instant under every default zone.",
+ "C15": " Default zones are given to set_timezone in upper, lower or mixed case.",
+ "C16": " Variables spelled like zone abbreviations; the blank run inside a money literal is widened as well.",
+ "C17": " Six separator conventions; a literal with glued punctuation has a Number token starting where it starts.",
+ "C18": " Keyword-less always-declining rules; the built-in sentences are compared with a plain calculator; keywords registered in any letter case; rule fields over quantities of a user family, the rule registered before or after the family; units with two names in either order; every live pattern is probed for its effect at the end of each history; the fresh reference is also built families-first; two exhaustive tables.",
+ "C19": " Programs over names of one and two words (names in a row, ranges between names, durations followed by a time range) must also equal the same line written without the names.",
+}
+for _k, _x in ADDENDA2.items():
+    _a = CLAIMED[_k]
+    CLAIMED[_k] = (_a[0], _a[1] + _x, _a[2], _a[3])
